@@ -37,6 +37,16 @@ def generate(seed, tier, index):
         # inputs at scales the ordinary generator never reaches (more than 32 species, thousands of cells)
         entry = C.scale_entry(rs.sub("scale"), ru, rk, "euler", scale, steps=(3, 6))
         coobs = False
+    if not scale and rf.chance(0.1):
+        # the script's units system is re-assigned after construction (the stored quantities keep their own units)
+        from .. import gen
+        for att_ in range(6):
+            us2 = gen.draw_us(rf.sub("post", att_))
+            if gen.boundary_numbers_ok(entry["phys"]["spec"], us2):
+                entry["post_units"] = us2
+                entry["phys"]["us"] = us2
+                entry["phys"]["eu"] = gen.engine_units(us2, "euler")
+                break
     sp = entry["phys"]["sp"]
     m = Model(entry["phys"]["spec"])
     ops = C.observed_ops(rf, sp, "euler", samples=False, readonly=False, post=False, poison=rf.choice([0, 0xff]))
